@@ -3,7 +3,7 @@
 (* Trace specification of the lunar family: C06 (year structure, month     *)
 (* navigation), C01 (civil <-> lunar bijection), C03 (solar terms), ...    *)
 (***************************************************************************)
-EXTENDS Civil, LunarTable, Vocab, TraceKit
+EXTENDS Civil, LunarTable, Terms, TraceKit
 
 tvars == << l, rej >>
 SeqSet(s) == { s[i] : i \in 1..Len(s) }
@@ -141,7 +141,72 @@ C01Checks(e) ==
 
 C01Year == IsEv("C01Year") /\ Consume(C01Checks(Trace[l]))
 
+(***************************************************************************)
+(* C03Year: the solar-term table of a civil year and lookups around it.    *)
+(***************************************************************************)
+\* tolerance (micro-degrees) of the independent low-precision solar longitude: 0.02 degree up to year
+\* 3000, then growing with the square of the distance (the series is a polynomial fit around J2000),
+\* plus the effect of the two Delta-T models disagreeing by dt seconds (the sun moves 11.4 udeg/s)
+IndepTol(y, dt) == 20000 + (IF y > 3000 THEN (12 * (y - 3000) * (y - 3000)) \div 1000 ELSE 0) + 12 * dt
+AbsI(x) == IF x < 0 THEN -x ELSE x
+\* observed JieQi object -> << position name, instant >>
+JqInst(o) == [jdn |-> JDN(o[2], o[3], o[4]), sod |-> Sod(o[5], o[6], o[7])]
+C03Checks(e) ==
+  LET y == e.y
+      n == Len(e.jd)
+      \* instants at one-second resolution, as the table of Solar objects publishes them
+      Tab == [i \in 1..Len(e.tab) |-> [jdn |-> JDN(e.tab[i][2], e.tab[i][3], e.tab[i][4]), sod |-> Sod(e.tab[i][5], e.tab[i][6], e.tab[i][7])]]
+      tabOK == Len(e.tab) = 31 /\ \A i \in 1..Len(e.tab) : Len(e.tab[i]) = 7 /\ ValidDateTime(e.tab[i][2], e.tab[i][3], e.tab[i][4], e.tab[i][5], e.tab[i][6], e.tab[i][7])
+      Look(name, q, o, pos) ==
+        \* o: observed JieQi (empty = nil); pos: expected table position (0 = none)
+        IF pos = 0 THEN Chk("C03.lookup." \o name, << q.at, o >>, Len(o) = 0)
+        ELSE Chk("C03.lookup." \o name, << q.at, o, pos >>,
+                 /\ Len(o) = 9 /\ o[1] = TermName31(pos) /\ JqInst(o) = Tab[pos]
+                 /\ (o[8] = 1) = IsJiePos(pos) /\ (o[9] = 1) = ~IsJiePos(pos))
+  IN IF e.p # 0 THEN Chk("C03.year.panic", y, FALSE)
+     ELSE IF ~tabOK THEN Chk("C03.table.shape", << y, Len(e.tab) >>, FALSE)
+     ELSE
+       Chk("C03.table.31-entries", y, n = 31 /\ e.tablen = 31)
+       + Chk("C03.table.canonical-order", y, \A i \in 1..31 : e.tab[i][1] = TermKeys31[i])
+       \* the published date-time is the real-valued instant rounded to the nearest second
+       + SumN(31, LAMBDA i :
+           Chk("C03.table.instant", << y, i, e.jd[i], e.tab[i] >>,
+               \* an instant within half a millisecond of a half second may round either way
+               IF e.jd[i][2] % 1000 = 500
+                 THEN Tab[i] \in { RoundMs(e.jd[i][1], e.jd[i][2] \div 1000, 499), RoundMs(e.jd[i][1], e.jd[i][2] \div 1000, 500) }
+                 ELSE Tab[i] = RoundMs(e.jd[i][1], e.jd[i][2] \div 1000, e.jd[i][2] % 1000)))
+       + Chk("C03.table.increasing", y, StrictlyIncreasing(Tab))
+       + Chk("C03.table.spacing", y, SpacingOK(Tab))
+       \* adjacent years share entries 25..31 / 1..7
+       + Chk("C03.table.shared-with-next-year", y, Len(e.nx) = 31 /\ \A i \in 1..7 : e.nx[i] = e.jd[24 + i])
+       \* the instant is the root of the library's own longitude function at one-second precision
+       + SumN(31, LAMBDA i :
+           Chk("C03.longitude.own-ephemeris", << y, i, e.lon[i] >>, e.lon[i][1] <= 0 /\ e.lon[i][2] >= 0 /\ e.lon[i][2] - e.lon[i][1] < 60000)
+           + Chk("C03.longitude.independent", << y, i, e.lon[i] >>, AbsI(e.lon[i][3]) <= IndepTol(y, e.lon[i][4])))
+       \* lookups
+       + SumSeq(e.q, LAMBDA q :
+           IF q.p # 0 THEN Chk("C03.lookup.panic", q.at, FALSE)
+           ELSE LET t == [jdn |-> JDN(q.at[1], q.at[2], q.at[3]), sod |-> Sod(q.at[4], q.at[5], q.at[6])]
+                    dj == OfDayPos(Tab, t.jdn, "all")
+                    djie == OfDayPos(Tab, t.jdn, "jie")
+                    dqi == OfDayPos(Tab, t.jdn, "qi")
+                    nm(pos) == IF pos = 0 THEN "" ELSE TermName31(pos)
+                    Cur(name, o, pos) == IF pos = 0 THEN Chk("C03.current." \o name, << q.at, o >>, Len(o) = 0)
+                                         ELSE Chk("C03.current." \o name, << q.at, o >>, Len(o) = 9 /\ o[1] = TermName31(pos)
+                                                  /\ << o[2], o[3], o[4] >> = << q.at[1], q.at[2], q.at[3] >>
+                                                  /\ (o[8] = 1) = IsJiePos(pos) /\ (o[9] = 1) = ~IsJiePos(pos))
+                IN Look("prevJie", q, q.pj, PrevPos(Tab, t, "jie", FALSE)) + Look("nextJie", q, q.nj, NextPos(Tab, t, "jie", FALSE))
+                   + Look("prevQi", q, q.pq, PrevPos(Tab, t, "qi", FALSE)) + Look("nextQi", q, q.nq, NextPos(Tab, t, "qi", FALSE))
+                   + Look("prevJieQi", q, q.pa, PrevPos(Tab, t, "all", FALSE)) + Look("nextJieQi", q, q.na, NextPos(Tab, t, "all", FALSE))
+                   + Look("prevJie.wholeDay", q, q.pjw, PrevPos(Tab, t, "jie", TRUE)) + Look("nextJie.wholeDay", q, q.njw, NextPos(Tab, t, "jie", TRUE))
+                   + Look("prevQi.wholeDay", q, q.pqw, PrevPos(Tab, t, "qi", TRUE)) + Look("nextQi.wholeDay", q, q.nqw, NextPos(Tab, t, "qi", TRUE))
+                   + Look("prevJieQi.wholeDay", q, q.paw, PrevPos(Tab, t, "all", TRUE)) + Look("nextJieQi.wholeDay", q, q.naw, NextPos(Tab, t, "all", TRUE))
+                   + Chk("C03.ofDay.name", << q.at, q.name >>, q.name = << nm(dj), nm(djie), nm(dqi) >>)
+                   + Cur("jieQi", q.cur[1], dj) + Cur("jie", q.cur[2], djie) + Cur("qi", q.cur[3], dqi))
+
+C03Year == IsEv("C03Year") /\ Consume(C03Checks(Trace[l]))
+
 TraceInit == KitInit
-TraceNext == C06Year \/ LunarEdge \/ C01Year
+TraceNext == C06Year \/ LunarEdge \/ C01Year \/ C03Year
 TraceSpec == TraceInit /\ [][TraceNext]_tvars
 =============================================================================
